@@ -27,6 +27,8 @@ type machine struct {
 	joy    *controller.Controller
 	mapper *memory.Mapper
 	cpu    *cpu.CPU
+	left   chan float32
+	right  chan float32
 }
 
 // testROM is the synthetic 32 KiB ROM-only image used by the CPU scripts (same formula as SimpleBus.test_rom)
@@ -47,14 +49,26 @@ func testROM() []byte {
 	return rom
 }
 
-func newMachine(rom []byte) *machine {
+func newMachine(rom []byte) *machine { return newMachineOpt(rom, true, false) }
+
+// newMachineOpt: ser = a serial writer is configured; aud = audio outputs are attached (buffered channels drained by the runner)
+func newMachineOpt(rom []byte, ser bool, aud bool) *machine {
 	m := &machine{}
 	m.ints = interrupts.New()
 	m.oam = oam.New()
-	m.audio = audio.New(nil, nil)
+	if aud {
+		m.left, m.right = make(chan float32, 64), make(chan float32, 64)
+		m.audio = audio.New(m.left, m.right)
+	} else {
+		m.audio = audio.New(nil, nil)
+	}
 	m.ppu = ppu.New(m.ints, m.oam, false)
-	m.serbuf = &bytes.Buffer{}
-	m.serial = serial.New(m.serbuf)
+	if ser {
+		m.serbuf = &bytes.Buffer{}
+		m.serial = serial.New(m.serbuf)
+	} else {
+		m.serial = serial.New(nil)
+	}
 	m.timer = timer.New()
 	m.joy = controller.New()
 	m.mapper = memory.New(rom, m.ints, m.oam, m.ppu, m.joy, m.serial, m.timer, m.audio)
